@@ -32,6 +32,12 @@ def run_correspondence(ctx, profile, n, k1=None, corpus=True, batch=400):
     for i in range(0, len(scns), batch):
         part = scns[i:i + batch]
         for scn, f in ctx.correspond(part, k1=k1):
+            if f.get("state_only"):
+                # the correspondence no longer checks on this history, yet nothing the property talks about differs:
+                # not a failing input (the search continues: other scenarios, the implementation-only relations)
+                if len(ctx.state_divergences) < 3:
+                    ctx.state_divergences.append({"scenario": scn, "reason": f["reason"], "k1": k1})
+                continue
             found += 1
             if found <= 3:
                 small = C.shrink(scn, lambda s: corr_fails(s, k1) is not None)
@@ -74,7 +80,7 @@ def run_twin(ctx, name, scenarios, shrink=True):
 def replay(payload):
     kind = payload["kind"]
     scn = payload["scenario"]
-    if kind == "correspondence":
+    if kind in ("correspondence", "state-divergence"):
         return corr_fails(scn, (payload.get("detail") or {}).get("k1"))
     if kind.startswith("twin:"):
         from .. import twinlib as T
